@@ -1,19 +1,6 @@
 """Service: C07, C08 and the service part of C13 (Service.tla / ServiceTrace.tla / harness/cmd/service)."""
-import json, os
 from props import ModuleCheck, T
 
-# Finding F29 (owner tally not reduced in a denom that a provider-scoped withdrawal brings to zero; needs fees in
-# two denoms) fails C07_OwnerTally / C07_Withdraw on every history that reaches it.  Its scenario and the
-# two-denom random histories join the verdict runs as soon as known_findings.json carries an entry matching
-# "why.f29" (findings/service.md); until then they are listed in SERVICE_PENDING only.
-def _f29_known():
-    try:
-        k = json.load(open(os.path.join(os.path.dirname(os.path.dirname(os.path.dirname(os.path.abspath(__file__)))),
-                                        "known_findings.json")))
-        return any("why.f29" in f.get("match", {}) for f in k.get("findings", []))
-    except Exception:
-        return False
-F29_KNOWN = _f29_known()
 
 SERVICE_CLAUSES_C07 = ["C07_DepositEscrow", "C07_RequestEscrow", "C07_OwnerTally", "C07_Charge", "C07_Answer",
                        "C07_Expire", "C07_Withdraw", "C07_Frame", "C07_ScaleExact", "Rejected_NoEffect"]
@@ -28,7 +15,7 @@ SERVICE_MC_CFG = "users=3,init=12,taxnum=1,taxden=2,slashnum=1,slashden=2,maxtim
 SERVICE_SCN_CFG = "users=3,init=50,taxnum=1,taxden=2,slashnum=1,slashden=2,maxtimeout=2,minmult=1,mindep=2,wait=2"
 
 SERVICE_EXT_CFG = "users=4,init=60,initbtc=20,taxnum=1,taxden=2,slashnum=1,slashden=2,maxtimeout=3,minmult=2,mindep=3,wait=3"
-SERVICE_F29_CFG = "users=3,init=50,initbtc=20,taxnum=1,taxden=2,slashnum=1,slashden=2,maxtimeout=2,minmult=1,mindep=2,wait=2"
+SERVICE_BTC_CFG = "users=3,init=50,initbtc=20,taxnum=1,taxden=2,slashnum=1,slashden=2,maxtimeout=2,minmult=1,mindep=2,wait=2"
 SERVICE_BTC_RND = "users=4,init=60,initbtc=30,taxnum=1,taxden=4,slashnum=1,slashden=2,btc=1"
 SERVICE_MULTI_CFG = "users=3,init=50,taxnum=1,taxden=2,slashnum=0,slashden=1,maxtimeout=2,minmult=1,mindep=2,wait=2"
 
@@ -39,9 +26,9 @@ SERVICE_RND = T(
     [dict(n=40, len=40, procs=7, cfg="users=4,init=40,taxnum=1,taxden=4,slashnum=1,slashden=2"),
      dict(n=40, len=40, procs=7, cfg="users=5,init=100,taxnum=1,taxden=10,slashnum=1,slashden=10,maxtimeout=4,minmult=2,mindep=3,maxctx=6"),
      dict(n=40, len=30, procs=6, cfg="users=3,init=25,taxnum=1,taxden=2,slashnum=1,slashden=1,minmult=1,mindep=0,wait=3")])
-if F29_KNOWN:
-    SERVICE_RND["quick"].append(dict(n=5, len=30, procs=3, cfg=SERVICE_BTC_RND))
-    SERVICE_RND["thorough"].append(dict(n=30, len=40, procs=6, cfg=SERVICE_BTC_RND))
+# two fee denoms, exchange rate, module-service calls, owner-wide withdrawals
+SERVICE_RND["quick"].append(dict(n=5, len=30, procs=3, cfg=SERVICE_BTC_RND))
+SERVICE_RND["thorough"].append(dict(n=30, len=40, procs=6, cfg=SERVICE_BTC_RND))
 SERVICE_GEN = T([dict(cfg="GEN_Service.cfg", num=8, depth=20, seeds=6)],
                 [dict(cfg="GEN_Service.cfg", num=50, depth=26, seeds=14)])
 SERVICE_SCN = [dict(file="scenarios/service_cover.ndjson", cfg=SERVICE_SCN_CFG),   # every required antecedent
@@ -53,17 +40,16 @@ SERVICE_SCN = [dict(file="scenarios/service_cover.ndjson", cfg=SERVICE_SCN_CFG),
                # refund timing at the boundary, re-enable with / without deposit, min deposit vs price and rate,
                # UpdateRequestContext field by field, non-base-denom prices, module-service calls
                dict(file="scenarios/service_ext.ndjson", cfg=SERVICE_EXT_CFG),
-               dict(file="scenarios/service_modsvc.ndjson", cfg=SERVICE_F29_CFG)]
-SERVICE_PENDING = [dict(file="scenarios/service_F29.ndjson", cfg=SERVICE_F29_CFG)]
-if F29_KNOWN:
-    SERVICE_SCN += SERVICE_PENDING
+               dict(file="scenarios/service_modsvc.ndjson", cfg=SERVICE_BTC_CFG)]
+# regression: owner tally in two denoms (finding F35, fixed by a72912e)
+SERVICE_SCN.append(dict(file="scenarios/service_F35.ndjson", cfg=SERVICE_BTC_CFG))
 # MC_Service_D: a provider priced in a denom that needs an exchange rate (no feed: context paused; was F20), 5 heights
 SERVICE_MC = T([dict(cfg="MC_Service.cfg", timeout=1500, heap="4g"), dict(cfg="MC_Service_D.cfg", timeout=900, heap="4g")],
                # thorough: 9 heights / timeouts 1-2 (one context); two concurrent contexts (rank orders, consumer
                # funds shared); binding operations under a shared owner; the F20 universe
                [dict(cfg="MC_Service_big.cfg", timeout=3400, heap="6g"), dict(cfg="MC_Service_two.cfg", timeout=3000, heap="6g"),
                 dict(cfg="MC_Service_bind.cfg", timeout=1500, heap="4g"), dict(cfg="MC_Service_D.cfg", timeout=900, heap="4g"),
-                # two fee denoms under one owner with an exchange rate (F29 masked by the _ModF29 variants)
+                # two fee denoms under one owner with an exchange rate (regression universe of F35)
                 dict(cfg="MC_Service_E.cfg", timeout=1500, heap="4g")])
 # diagnostic clauses (reported under "other", never part of a verdict)
 SERVICE_DIAGNOSTIC = ["X07_RefundTiming", "X07_EnableDisable", "X07_MinDeposit", "X07_Eligible", "X07_WithdrawAll",
